@@ -11,6 +11,10 @@ Definition x (h : string) : bytes := unhex h.
 (* committed account as the harness dumps it: (address, nonce, code-hash id, [(key, value)]) *)
 Definition dacct : Type := N * N * N * list (N * string).
 
+Definition da (a n h : N) (st : list (N * string)) : dacct := (a, n, h, st).
+Definition kv (k : N) (v : string) : N * string := (k, v).
+Definition lg (p i : N) : N * N := (p, i).
+
 Definition mk_store (l : list (N * string)) : gmap N bytes :=
   list_to_map (map (fun p => (p.1, unhex p.2)) l).
 Definition mk_trie (l : list dacct) : gmap N acct :=
